@@ -466,7 +466,8 @@ class Part(object):
 
     def _time_interpolator(self, quarter=False, inv=False, musical_beat=False):
         if len(self._points) < 2:
-            return lambda x: np.zeros(len(x))
+            # same result shape as scipy's interp1d: scalars give a 0-d array
+            return lambda x: np.zeros(np.shape(x))
 
         keypoints = defaultdict(lambda: [None, None])
         _ = keypoints[self.first_point.t]
